@@ -72,6 +72,13 @@ def run(ck: Checker, prog: Program, tier: str):
     from . import c08
     with ck.borrow(c08, "C12.R7+"):
         ck.guard(c08._r2, ck, prog)         # includes the update tables
+        ck.guard(c08._r3, ck, prog)
+        ck.guard(c08._r4, ck, prog)
+    from . import c05, c06
+    with ck.borrow(c05, "C12.R3+"):
+        ck.guard(c05._single_window_guard, ck, prog, prog.cls("HvsrTraditional"))
+    with ck.borrow(c06, "C12.R7+"):
+        ck.guard(c06._entry_state, ck, prog, prog.func(c06.OUTER))
     ck.guard(_writers_truncate, ck, prog)
 
 
